@@ -16,6 +16,21 @@ CHECKS = {
         "text": "Theorems about the Lean model of the match-listing engine (every reported end is RFC-derivable; ...) hold for all grammars, sources and offsets; the model is tied to the real code by comparing end sets on generated grammars/inputs and adjudicating disagreements against the reference set semantics.",
         "design_ref": "DESIGN.md section 8 / C01",
     },
+    "C02": {
+        "technique": "Lean 4 proof (parse = unique maximum of the listed ends, independent of set order; parse_all = whole-input test) + differential correspondence on Rule.parse / parse_all",
+        "text": "Theorems about the model's parse/parse_all for all grammars, sources, offsets; tied to the code by exact comparison of Rule.parse / Rule.parse_all outcomes (end and tree) on generated grammars and inputs, adjudicated against the reference end sets.",
+        "design_ref": "DESIGN.md section 8 / C02",
+    },
+    "C03": {
+        "technique": "Lean 4 proof (every listed match is a Derives tree whose leaves tile the source slice) + exact comparison of ordered match lists with trees + independent derivation checker on the code's own trees",
+        "text": "Theorems: every match of the model is an RFC 5234 derivation tree rooted at the rule name whose leaves tile source[start:end]; tied to the code by exact equality of the ordered match lists (with trees) and by checking the real code's trees with an independent derivation checker.",
+        "design_ref": "DESIGN.md section 8 / C03",
+    },
+    "C07": {
+        "technique": "Lean 4 proof (result of parse independent of any re-ordering of the match set; engine is a pure function) + same requests in subprocesses with different PYTHONHASHSEED and histories compared with each other and with the model",
+        "text": "Partial by nature: the theorem shows the modelled algorithm has no order dependence; hash randomisation itself is a runtime mechanism, so the tie is k fresh subprocesses with different hash seeds and warm-up histories whose canonical dumps must equal each other and the model's.",
+        "design_ref": "DESIGN.md section 8 / C07",
+    },
 }
 
 NOT_YET = "check not built yet in this round (work in progress; see DESIGN.md section 8 for the plan)"
